@@ -12,11 +12,24 @@ regenerated from the repository's current source into coq/Generated/TaintSites.v
   * whether `Manager.Unlock` (waddrmgr/manager.go) ever loads the script
     crypto key (`unlock_decrypts_script_key`; DESIGN section 6, S5).
 
+  * WHICH KEY SEALS WHAT at every place where the result of an `X.Encrypt(arg)`
+    call is stored (harness/cmd/extract-c04, go/ast, nothing compiled): the
+    receiver X (which crypto / master key) and the origin class of arg
+    (rootKey / derived private extended key / EC private key / secret script /
+    crypto key bytes = secret; Neuter()ed keys, public keys, address ids,
+    public scripts = public), per slot of the db.go function that receives it.
+    The entries of the functions the model's operations are named after become
+    the `table` the model Addr/Taint.v is instantiated with; all entries are
+    listed in `source_entries` (Properties/C04.v decides `table_ok table` and
+    `source_sites_ok` by computation).
+
 Primary path: the shape of the source (switch over the address-row type, or
 the equivalent if / else-if chain comparing one evaluation of the tag).
-Fallback, only when the shape is not recognised: the two regenerated facts
-are determined behaviourally by running their witness scenarios on the code
-built from the repository (probe_facts).  The Generated file records which
+Fallback, only when the shape is not recognised: the regenerated facts are
+determined behaviourally by running their witness scenarios on the code built
+from the repository (probe_facts): for the sealing table the decrypt-and-
+classify look of the harness at the rows each operation wrote (which key
+opens the field, what the plaintext is).  The Generated file records which
 path ran (`facts source:`).  Only if both paths fail does main raise, so that
 the check reports a broken obligation instead of keeping an old table."""
 import os, re
@@ -196,6 +209,135 @@ def source_facts(repo):
                 unlock_decrypts_script_key=loads_script)
 
 
+# ---------------------------------------------------------------- sealing sites
+
+KEYS = {"masterKeyPub": "KMasterPub", "masterKeyPriv": "KMasterPriv", "cryptoKeyPub": "KCryptoPub",
+        "cryptoKeyPriv": "KCryptoPriv", "cryptoKeyScript": "KCryptoScript"}
+# labels of the harness (key that opens a field) -> key of the model
+LABEL_KEYS = {"mpub": "KMasterPub", "mpriv": "KMasterPriv", "cpub": "KCryptoPub", "cpriv": "KCryptoPriv",
+              "cscript": "KCryptoScript", "zero": "KCryptoScript"}
+CONTENTS = {"master_xprv": "CtMasterXprv", "master_xpub": "CtMasterXpub", "cointype_xprv": "CtCoinXprv",
+            "cointype_xpub": "CtCoinXpub", "account_xprv": "CtAcctXprv", "account_xpub": "CtAcctXpub",
+            "imported_xpub": "CtImpXpub", "privkey": "CtPrivKey", "pubkey": "CtPubKey", "addr_id": "CtAddrId",
+            "secret_script": "CtSecretScript", "public_script": "CtPublicScript", "crypto_key_pub": "CtKeyPub",
+            "crypto_key_priv": "CtKeyPriv", "crypto_key_script": "CtKeyScript", "passphrase": "CtPassphrase",
+            "seed": "CtSeed"}
+SLOTS = {"mhdpriv": "LMhdPriv", "mhdpub": "LMhdPub", "cpub": "LCPub", "cpriv": "LCPriv", "cscript": "LCScript",
+         "ctpub": "LCtPub", "ctpriv": "LCtPriv", "acctpub": "LAcctPub", "acctpriv": "LAcctPriv",
+         "watchacctpub": "LWatchAcctPub", "imppub": "LImpPub", "imppriv": "LImpPriv", "scrhash": "LScrHash",
+         "scrscript_secret": "(LScrScript true)", "scrscript_public": "(LScrScript false)"}
+# (function the model's operation is named after, slot[, value of isSecretScript]) -> site of Addr/Taint.v
+SITES = [
+    ("XCreateMhdPriv", "Create", "mhdpriv"), ("XCreateMhdPub", "Create", "mhdpub"), ("XCreateCPub", "Create", "cpub"),
+    ("XCreateCPriv", "Create", "cpriv"), ("XCreateCScript", "Create", "cscript"),
+    ("XScopeCtPub", "createManagerKeyScope", "ctpub"), ("XScopeCtPriv", "createManagerKeyScope", "ctpriv"),
+    ("XScopeAcctPub", "createManagerKeyScope", "acctpub"), ("XScopeAcctPriv", "createManagerKeyScope", "acctpriv"),
+    ("XNewAcctPub", "newAccount", "acctpub"), ("XNewAcctPriv", "newAccount", "acctpriv"),
+    ("XWatchAcctPub", "newAccountWatchingOnly", "watchacctpub"),
+    ("XImpPub", "importPublicKey", "imppub"), ("XImpPriv", "ImportPrivateKey", "imppriv"),
+    ("XScriptHash", "importScriptAddress", "scrhash"), ("XScriptSecret", "importScriptAddress", "scrscript_secret"),
+    ("XScriptPublic", "importScriptAddress", "scrscript_public"),
+    ("XChPrivCPriv", "ChangePassphrase", "cpriv"), ("XChPrivCScript", "ChangePassphrase", "cscript"),
+    ("XChPubCPub", "ChangePassphrase", "cpub"),
+]
+
+
+def slot_name(e):
+    s = e["slot"]
+    if s == "scrscript":
+        if e.get("cond") not in ("secret", "public"):
+            raise ExtractError("sealing sites: script field stored at %s without the secret-script flag" % e.get("pos"))
+        s = "scrscript_" + e["cond"]
+    return s
+
+
+def source_sites(repo):
+    """sealing table read off the source by harness/cmd/extract-c04 (go/ast)"""
+    import json, subprocess
+    import vlib
+    with vlib.Lock("go"):
+        p = subprocess.run(["go", "run", "./cmd/extract-c04", repo], cwd=vlib.HARNESS, env=vlib.GOENV,
+                           stdout=subprocess.PIPE, stderr=subprocess.PIPE, text=True, timeout=280)
+    if p.returncode != 0:
+        raise ExtractError("extract-c04 (rc=%d): %s" % (p.returncode, p.stderr.strip().replace(repo.rstrip("/") + "/", "")[-1200:]))
+    res = json.loads(p.stdout)
+    entries = []
+    for e in res["entries"]:
+        if e["key"] not in KEYS:
+            raise ExtractError("sealing sites: unknown key %r at %s" % (e["key"], e["pos"]))
+        entries.append(dict(owner=e["owner"], func=e["func"], slot=slot_name(e), key=KEYS[e["key"]],
+                            content=CONTENTS.get(e["content"], "CtUnknown"), raw_content=e["content"]))
+    return build_table(entries, "source")
+
+
+def build_table(entries, how):
+    table = {}
+    for site, owner, slot in SITES:
+        got = {(e["key"], e["content"]) for e in entries if e["owner"] == owner and e["slot"] == slot}
+        if len(got) != 1:
+            raise ExtractError("sealing sites (%s): %d different (key, content) pairs for %s/%s (site %s): %r"
+                               % (how, len(got), owner, slot, site, sorted(got)))
+        table[site] = got.pop()
+    uniq, seen = [], set()
+    for e in entries:
+        k = (e["owner"], e["func"], e["slot"], e["key"], e["content"])
+        if e["slot"] not in SLOTS:
+            raise ExtractError("sealing sites (%s): unknown slot %r" % (how, e["slot"]))
+        if k not in seen:
+            seen.add(k)
+            uniq.append(e)
+    return dict(table=table, entries=uniq)
+
+
+# operation of the probe scenario -> function the model's operation is named after, per slot
+PROBE_OWNERS = {
+    "create": {"mhdpriv": "Create", "mhdpub": "Create", "cpub": "Create", "cpriv": "Create", "cscript": "Create",
+               "ctpub": "createManagerKeyScope", "ctpriv": "createManagerKeyScope",
+               "acctpub": "createManagerKeyScope", "acctpriv": "createManagerKeyScope"},
+    "newscope": {"ctpub": "createManagerKeyScope", "ctpriv": "createManagerKeyScope",
+                 "acctpub": "createManagerKeyScope", "acctpriv": "createManagerKeyScope"},
+    "newacct": {"acctpub": "newAccount", "acctpriv": "newAccount"},
+    "impxpub": {"watchacctpub": "newAccountWatchingOnly"},
+    "imppriv": {"imppub": "importPublicKey", "imppriv": "ImportPrivateKey"},
+    "imppub": {"imppub": "importPublicKey"},
+    "impscript": {"scrhash": "importScriptAddress", "scrscript_secret": "importScriptAddress",
+                  "scrscript_public": "importScriptAddress"},
+    "chpass_private": {"cpriv": "ChangePassphrase", "cscript": "ChangePassphrase"},
+    "chpass_public": {"cpub": "ChangePassphrase"},
+}
+
+
+def probe_sites(res):
+    """sealing table from what the probe scenario's operations wrote (harness -probe: `sites` = list of
+    [operation, slot, label of the key that opens the field, class of the plaintext])"""
+    entries = []
+    for op, slot, label, content in res.get("sites") or []:
+        owner = (PROBE_OWNERS.get(op) or {}).get(slot)
+        if owner is None:
+            continue        # rows an operation re-serialises (account row of a derivation, ...): pass-through
+        if label not in LABEL_KEYS:
+            raise ExtractError("probe: field of slot %s written by %s opens under no known key (%s)" % (slot, op, label))
+        entries.append(dict(owner=owner, func=owner + "(probe:" + op + ")", slot=slot, key=LABEL_KEYS[label],
+                            content=CONTENTS.get(content, "CtUnknown"), raw_content=content))
+    return build_table(entries, "probe")
+
+
+def render_sites(sites):
+    lines = ["Definition table : Taint.table := fun s =>", "  match s with"]
+    for site, owner, slot in SITES:
+        k, c = sites["table"][site]
+        lines.append("  | %s => {| e_key := %s; e_content := %s |}   (* %s: %s *)" % (site, k, c, owner, slot))
+    lines += ["  end.", "",
+              "(* every place where the result of an Encrypt call is stored: (function of the model's vocabulary /",
+              "   function holding the call, slot, key and content) *)",
+              "Definition source_entries : list (string * slot * entry) :="]
+    rows = ['   ("%s/%s", %s, {| e_key := %s; e_content := %s |})' % (e["owner"], e["func"], SLOTS[e["slot"]], e["key"], e["content"])
+            for e in sites["entries"]]
+    lines.append("  [" + ";\n".join(rows).lstrip() + "].")
+    return "\n".join(lines) + "\n"
+
+
+
 def _run_probe(repo):
     """build harness/cmd/c04 against `repo` and run its -probe mode"""
     import hashlib, json, shutil, subprocess
@@ -252,32 +394,42 @@ def probe_facts(repo):
     cases = ["adtImport", "adtScript"] + (["adtTaprootScript"] if res["wo_strips_taproot"] else []) + ["adtWitnessScript"]
     return dict(cases=cases, wo_strips_taproot=bool(res["wo_strips_taproot"]),
                 unlock_decrypts_script_key=bool(res["unlock_decrypts_script_key"]),
-                detail="; ".join(res.get("detail") or []), instances=res.get("instances"))
+                detail="; ".join(res.get("detail") or []), instances=res.get("instances"), probe=res)
 
 
-def render(facts, source_line):
+def render(facts, source_line, sites, sites_line):
     return """(* GENERATED by lib/extract_c04.py from the repository's waddrmgr/db.go
-   (deletePrivateKeys) and waddrmgr/manager.go (Unlock).  Do not edit;
-   bin/extract rewrites it.
+   (deletePrivateKeys), waddrmgr/manager.go (Unlock) and every Encrypt call
+   of package waddrmgr whose result is stored.  Do not edit; bin/extract
+   rewrites it.
 
    wo_strip_cases: the address-row types whose private field
    deletePrivateKeys blanks when converting to watching-only.
    wo_strips_taproot: adtTaprootScript is among them.
    unlock_decrypts_script_key: Unlock loads cryptoKeyScript (false: the
-   in-memory script key stays all-zero, DESIGN section 6 S5). *)
+   in-memory script key stays all-zero, DESIGN section 6 S5).
+   table: for every write site the model's operations use, the key that
+   seals the stored field (receiver of the Encrypt call) and the class of the
+   plaintext (origin of its argument).
+   source_entries: the same for EVERY place where an Encrypt result is stored. *)
 (* facts source: %s *)
+(* sealing sites source: %s *)
 From Coq Require Import String List Bool.
+From Verif Require Import Base.Prelude Addr.Taint.
 Import ListNotations.
 Local Open Scope string_scope.
 
 Definition wo_strip_cases : list string := [%s].
 Definition wo_strips_taproot : bool := %s.
 Definition unlock_decrypts_script_key : bool := %s.
-""" % (source_line.replace("*)", "* )"), "; ".join('"%s"' % c for c in facts["cases"]),
-       "true" if facts["wo_strips_taproot"] else "false", "true" if facts["unlock_decrypts_script_key"] else "false")
+
+%s""" % (source_line.replace("*)", "* )"), sites_line.replace("*)", "* )"), "; ".join('"%s"' % c for c in facts["cases"]),
+       "true" if facts["wo_strips_taproot"] else "false", "true" if facts["unlock_decrypts_script_key"] else "false",
+       render_sites(sites))
 
 
 def main(repo, outdir, write_if_changed):
+    probe = None
     try:
         facts = source_facts(repo)
         source_line = "source (shape of deletePrivateKeys / Unlock recognised)"
@@ -285,13 +437,30 @@ def main(repo, outdir, write_if_changed):
         why = "%s: %s" % (type(e1).__name__, e1)
         try:
             facts = probe_facts(repo)
+            probe = facts["probe"]
         except Exception as e2:
             raise ExtractError("source shape not recognised (%s) AND probing the built code failed (%s: %s)"
                                % (why, type(e2).__name__, e2))
         source_line = ("probe (source shape not recognised: %s; facts determined by the witness scenarios on the code "
                        "built from the repository, harness/cmd/c04 -probe, %s wallets: %s)"
                        % (re.sub(r"\s+", " ", why)[:300], facts.get("instances"), facts.get("detail")))
-    write_if_changed(os.path.join(outdir, "TaintSites.v"), render(facts, source_line))
+    try:
+        sites = source_sites(repo)
+        sites_line = "source (harness/cmd/extract-c04: every stored Encrypt result traced to its receiver and argument)"
+    except Exception as e1:
+        why = "%s: %s" % (type(e1).__name__, e1)
+        try:
+            if probe is None:
+                probe = _run_probe(repo)
+                if probe.get("errors"):
+                    raise ExtractError("probe: " + "; ".join(probe["errors"])[:1500])
+            sites = probe_sites(probe)
+        except Exception as e2:
+            raise ExtractError("sealing sites: source not recognised (%s) AND probing the built code failed (%s: %s)"
+                               % (why, type(e2).__name__, e2))
+        sites_line = ("probe (source not recognised: %s; key and plaintext class of every field observed by opening the rows "
+                      "each operation of the witness scenario wrote, harness/cmd/c04 -probe)" % re.sub(r"\s+", " ", why)[:400])
+    write_if_changed(os.path.join(outdir, "TaintSites.v"), render(facts, source_line, sites, sites_line))
 
 
 if __name__ == "__main__":
